@@ -17,6 +17,7 @@ func checkC10(c *an.Ctx) {
 	c.Rule("C10.1", "variable chain (E5): at every job the template variables are layered runner (= configuration + --set + built-ins) < task < stage; --set is applied to the loaded configuration's container after Load; Root, TempDir, Args, ArgsList are written into that base container; ARGS comes from Args")
 	c.Rule("C10.2", "configuration variables survive loading (E5): Config.merge has an explicit flow src.Variables → dst.Variables (mergo.Merge never overwrites the pre-populated field), and buildFromDefinition merges the definition's variables over the defaults")
 	c.Rule("C10.3", "`--` (E2/E4): taskArgs returns the unchanged tail of the arguments after `--`; every target loop leaves the loop on `--` before dispatching anything")
+	c.Rule("C10.5", "late resolution (E5 provenance): a loop that renders the values of a variable set in place (ranges over Container.Map(), RenderString on the value, Set of the result) works only on a container that is the fresh result of a Merge — the layered set built for one compilation — never on a container that is held in a field of the runner or the configuration: resolving a lower level alone would freeze references to names that a task or a stage defines later")
 	c.Rule("C10.4", "undefined variables (E3): RenderString executes a template built with option missingkey=error; in Execute the rendering of the command dominates the interpreter call and its error returns first; likewise the job dir in CompileCommand")
 	c.Summaries = append(c.Summaries, "github.com/imdario/mergo v0.3.8 Merge without WithOverride never overwrites a destination field that is non-zero; NewConfig initialises Config.Variables")
 	c.NotDecided = append(c.NotDecided, "urfave/cli's own treatment of `--`", "two `--` in one command line (taskArgs keeps what follows the last one: observation)", "text/template semantics of missingkey=error (trusted)")
@@ -101,6 +102,7 @@ func checkC10(c *an.Ctx) {
 	configVariablesFlow(c, "C10.2")
 	dashHandling(c, "C10.3")
 	missingKey(c, r, cc, "C10.4")
+	lateResolution(c, "C10.5")
 }
 
 func baseVariables(c *an.Ctx, r *runnerRoles, rule string) {
@@ -802,5 +804,89 @@ func missingKey(c *an.Ctx, r *runnerRoles, cc *ssa.Function, rule string) {
 			fate := p.ErrFate(ci, noReturn)
 			c.Check(fate.Kind == "propagated" || fate.Kind == "converted", rule, an.Short(cc)+":err(RenderString)", ci.Pos(), "an undefined variable in dir fails the compilation", "a rendering error of the job dir is dropped: "+fate.Detail)
 		}
+	}
+}
+
+// lateResolution checks C10.5.
+func lateResolution(c *an.Ctx, rule string) {
+	p := c.P
+	isMapCall := func(v ssa.Value) (ssa.Value, bool) {
+		for _, src := range an.Sources(v) {
+			call, ok := src.(*ssa.Call)
+			if !ok {
+				continue
+			}
+			if call.Call.IsInvoke() && call.Call.Method.Name() == "Map" && an.TypeIs(call.Call.Value.Type(), "pkg/variables", "Container") {
+				return call.Call.Value, true
+			}
+			if an.ShortCallee(&call.Call) == "(*pkg/variables.Variables).Map" {
+				return call.Call.Args[0], true
+			}
+		}
+		return nil, false
+	}
+	n := 0
+	for _, fn := range p.Funcs {
+		if !an.InModule(fn) {
+			continue
+		}
+		for _, l := range an.Loops(fn) {
+			op := l.RangeOperand()
+			if op == nil {
+				continue
+			}
+			cont, ok := isMapCall(op)
+			if !ok {
+				continue
+			}
+			renders, sets := false, false
+			for b := range l.Blocks {
+				for _, in := range b.Instrs {
+					call, ok := in.(*ssa.Call)
+					if !ok {
+						continue
+					}
+					if an.ShortCallee(&call.Call) == "pkg/utils.RenderString" {
+						renders = true
+					}
+					if cc, ok := an.IsCallTo(call, fnSet, "(*pkg/variables.Variables).Set"); ok {
+						recv := cc.Value
+						if !cc.IsInvoke() {
+							recv = cc.Args[0]
+						}
+						if an.SameValue(recv, cont) {
+							sets = true
+						}
+					}
+				}
+			}
+			if !renders || !sets {
+				continue
+			}
+			n++
+			key := an.Short(fn) + ":resolves-in-place"
+			bad := ""
+			srcs := p.DeepSources(cont, 4, true)
+			if len(srcs) == 0 {
+				srcs = []ssa.Value{cont}
+			}
+			for _, src := range srcs {
+				call, ok := src.(*ssa.Call)
+				if ok {
+					name := an.ShortCallee(&call.Call)
+					if call.Call.IsInvoke() {
+						name = "(pkg/variables.Container)." + call.Call.Method.Name() // same spelling as fnMerge
+					}
+					if name == fnMerge || name == "(*pkg/variables.Variables).Merge" {
+						continue
+					}
+				}
+				bad = an.FieldProv(src)
+			}
+			c.Check(bad == "", rule, key, fn.Pos(), "variable values are resolved only in the layered set a Merge built for this compilation", fmt.Sprintf("%s resolves the values of %s in place — a container that is not the fresh result of a Merge: references to names that a task or a stage defines are resolved (and stored) against the lower levels alone, so the override is never seen", an.Short(fn), bad))
+		}
+	}
+	if n == 0 {
+		c.Und(rule, "runner:variable-resolution", token.NoPos, "no loop renders the values of a variable set in place (CompileTask is expected to)")
 	}
 }
